@@ -188,7 +188,11 @@ def big_shapes(ctx):
         col.count()
         rep = {"big": True, "seed": ctx.seed, "case": k}
         for name, f, hi in (("MPC", gen.MPC, 1.0), ("MPD", gen.MPD, math.pi / 2), ("MCF", gen.MCF, 1.0)):
-            v0 = float(np.real(np.atleast_1d(f(x))[0]))
+            r0 = np.atleast_1d(f(x))
+            if r0.size == 0:
+                col.violation(f"gen.{name}/empty_result", f"{name} of a {n}-component shape returned an empty result", rep)
+                continue
+            v0 = float(np.real(r0[0]))
             if not finite(v0):
                 col.bump(f"{name}_not_finite_non_collinear")
                 continue
